@@ -139,19 +139,20 @@ def run(ctx, prop):
         drive_and_validate(ctx, prop, "asmreplay", ["-mode", "abstract", "-seed", s + 7, "-in", simulate(ctx, 100, s + 7, "Writer_sim_asm.cfg")])
     else:
         drive_and_validate(ctx, prop, "bulk", ["-mode", "bulk", "-seed", s, "-n", 27, "-size", 6000])
+        # sizes fitted to the judging rate (TraceWriter + TraceWriterImpl: about 16 workloads a second): some 12 000 workloads
+        for k in range(2):
+            drive_and_validate(ctx, prop, "asm%d" % k, ["-mode", "asm", "-seed", s * 1000 + k, "-n", 1000, "-size", 8 + 12 * k])
+        drive_and_validate(ctx, prop, "asmreplay", ["-mode", "abstract", "-seed", s + 7, "-in", simulate(ctx, 800, s + 7, "Writer_sim_asm.cfg")])
+        for k in range(2):
+            drive_and_validate(ctx, prop, "replay%d" % k, ["-mode", "abstract", "-seed", s * 100 + k, "-in", simulate(ctx, 1500, s * 100 + k)])
         for k in range(4):
-            drive_and_validate(ctx, prop, "asm%d" % k, ["-mode", "asm", "-seed", s * 1000 + k, "-n", 1500, "-size", 8 + 6 * k])
-        drive_and_validate(ctx, prop, "asmreplay", ["-mode", "abstract", "-seed", s + 7, "-in", simulate(ctx, 1500, s + 7, "Writer_sim_asm.cfg")])
-        for k in range(4):
-            drive_and_validate(ctx, prop, "replay%d" % k, ["-mode", "abstract", "-seed", s * 100 + k, "-in", simulate(ctx, 2000, s * 100 + k)])
-        for k in range(8):
-            drive_and_validate(ctx, prop, "random%d" % k, ["-mode", "random", "-seed", s * 1000 + k, "-n", 1500, "-size", 14 + 4 * k])
-        drive_and_validate(ctx, prop, "flags", ["-mode", "flags", "-seed", s, "-n", 3, "-size", 12])
+            drive_and_validate(ctx, prop, "random%d" % k, ["-mode", "random", "-seed", s * 1000 + k, "-n", 1000, "-size", 14 + 8 * k])
+        drive_and_validate(ctx, prop, "flags", ["-mode", "flags", "-seed", s, "-n", 2, "-size", 12])
     if prop == "C08":
         # the Info clause: Info on fresh Readers and inside Reader sessions exported by TLC from ReaderSession.tla
         # (Info after filtered / ordered / unindexed reads on the same Reader), judged by TraceIndexed.JudgeInfo
         import indexfam
-        indexfam.drive(ctx, prop, "info", ["-mode", "writer", "-seed", s, "-n", 150 if ctx.tier == "quick" else 2000, "-reads", 2,
+        indexfam.drive(ctx, prop, "info", ["-mode", "writer", "-seed", s, "-n", 150 if ctx.tier == "quick" else 1000, "-reads", 2,
                                            "-sessions", indexfam.sessions(ctx), "-nsess", 6])
         indexfam.drive(ctx, prop, "inforand", ["-mode", "rand", "-seed", s, "-n", 20 if ctx.tier == "quick" else 300, "-reads", 2,
                                                "-sessions", indexfam.sessions(ctx), "-nsess", 6])
